@@ -234,7 +234,7 @@ Theorem C13_source_drain_bounds : forall len cap base s e,
 Proof. exact src_drain_bounds_ok. Qed.
 
 (* the statements around those expressions in insert / remove are the ones the model's steps stand for *)
-Theorem C13_source_frames : forallb snd src_frames_vec = true /\ List.length src_frames_vec = 2%nat.
+Theorem C13_source_frames : forallb snd src_frames_vec = true /\ List.length src_frames_vec = 5%nat.
 Proof. split; [exact src_frames_vec_ok | reflexivity]. Qed.
 
 Theorem C13_source_drain_checks : forall len cap base s e a b,
@@ -252,6 +252,20 @@ Print Assumptions C13_source_split_off.
 Print Assumptions C13_source_drain_bounds.
 Print Assumptions C13_source_frames.
 Print Assumptions C13_source_drain_checks.
+
+(* Drain::drop: the tail moves down to the drain's start (only if there is one and it is not in
+   place already) and the length becomes start + tail_len — drain's copy_within and new length *)
+Theorem C13_source_drain_drop : forall base start tail_start tail_len,
+  base + tail_start < W -> base + start < W -> start + tail_len < W ->
+  let en := vdrain base start tail_start tail_len in
+  call_fn src_fns en "vec_drain_drop_has_tail" [] = RustSem.Ret (VB (0 <? tail_len)) /\
+  call_fn src_fns en "vec_drain_drop_must_move" [] = RustSem.Ret (VB (negb (tail_start =? start))) /\
+  call_fn src_fns en "vec_drain_drop_copy_src" [] = RustSem.Ret (VN (base + tail_start)) /\
+  call_fn src_fns en "vec_drain_drop_copy_dst" [] = RustSem.Ret (VN (base + start)) /\
+  call_fn src_fns en "vec_drain_drop_copy_len" [] = RustSem.Ret (VN tail_len) /\
+  call_fn src_fns en "vec_drain_drop_new_len" [] = RustSem.Ret (VN (start + tail_len)).
+Proof. exact src_vec_drain_drop_ok. Qed.
+Print Assumptions C13_source_drain_drop.
 
 (* ---- into_iter and clone (VecIter.v) ---- *)
 From BV Require Import VecIter.
